@@ -22,8 +22,8 @@ import (
 // with the parser and the fraction length as atoms.
 
 func init() {
-	register(&Rule{ID: "T-intfloat", Min: 4, Run: runTIntFloat,
-		Doc: "integer or float depends on the spelling only through \"a decimal point and no exponent\": each of the four classifiers (json.GuessData.IsInteger / IsFloat, typeGuesser.isInteger / isFloat), interpreted on every text of up to three bytes over {'.', 'e', 'E', digit} with the exact parser and the normalised fraction length as atoms, answers float iff the text has a point and no exponent mark, or it parses and a fraction is left after normalisation; integer iff it is not of the first form, parses, and no fraction is left (1e2 and 1.5e1 are integers, 1.0 is a float)"})
+	register(&Rule{ID: "T-intfloat", Min: 6, Run: runTIntFloat,
+		Doc: "integer or float depends on the spelling only through \"a decimal point and no exponent\": each of the four classifiers (json.GuessData.IsInteger / IsFloat, typeGuesser.isInteger / isFloat) and the two dispatchers that call them (GuessData.LiteralJsonType / JsonType, asked about numerals of up to four bytes with a sign in the alphabet), interpreted on every text of up to three bytes over {'.', 'e', 'E', digit} with the exact parser and the normalised fraction length as atoms, answers float iff the text has a point and no exponent mark, or it parses and a fraction is left after normalisation; integer iff it is not of the first form, parses, and no fraction is left (1e2 and 1.5e1 are integers, 1.0 is a float)"})
 }
 
 func runTIntFloat(c *load.Ctx, r *report.RuleResult) {
@@ -32,6 +32,8 @@ func runTIntFloat(c *load.Ctx, r *report.RuleResult) {
 		float                   bool
 	}
 	targets := []target{
+		{pkgJSON, "GuessData", "LiteralJsonType", "bytes", false},
+		{pkgJSON, "GuessData", "JsonType", "bytes", false},
 		{pkgJSON, "GuessData", "IsInteger", "bytes", false},
 		{pkgJSON, "GuessData", "IsFloat", "bytes", true},
 		{".", "typeGuesser", "isInteger", "data", false},
@@ -42,6 +44,33 @@ func runTIntFloat(c *load.Ctx, r *report.RuleResult) {
 	if newNumber == nil || fracLen == nil {
 		r.Unk("anchor|json.NewNumber", "", "NewNumber / LengthOfFractionalPart not found")
 		return
+	}
+	var tInt, tFloat int64 = -1, -1
+	if p := c.Pkg(pkgJSON); p != nil {
+		for name, dst := range map[string]*int64{"TypeInteger": &tInt, "TypeFloat": &tFloat} {
+			if k, ok := p.Types.Scope().Lookup(name).(*types.Const); ok {
+				if v, ok := constInt(k); ok {
+					*dst = v
+				}
+			}
+		}
+	}
+	// the dispatchers are asked about numerals only (first byte a digit), over an alphabet with the sign
+	// of an exponent in it and one byte more
+	var numerals [][]byte
+	{
+		al := []byte{'.', 'e', 'E', '-', '7'}
+		var gen func(prefix []byte, n int)
+		gen = func(prefix []byte, n int) {
+			numerals = append(numerals, append([]byte{}, prefix...))
+			if n == 0 {
+				return
+			}
+			for _, a := range al {
+				gen(append(prefix, a), n-1)
+			}
+		}
+		gen([]byte{'7'}, 3)
 	}
 	alphabet := []byte{'.', 'e', 'E', '7'}
 	var texts [][]byte
@@ -77,7 +106,16 @@ func runTIntFloat(c *load.Ctx, r *report.RuleResult) {
 		}
 		problem := ""
 		paths := 0
-		for _, txt := range texts {
+		dispatcher := tg.method == "LiteralJsonType" || tg.method == "JsonType"
+		mine := texts
+		if dispatcher {
+			mine = numerals
+			if tInt < 0 || tFloat < 0 {
+				r.Unk(key, "", "json.TypeInteger / TypeFloat not found")
+				continue
+			}
+		}
+		for _, txt := range mine {
 			txt := txt
 			outs := pe.ExploreFn(e.cfg, func(in *pe.Interp) pe.Value {
 				st := named.Underlying().(*types.Struct)
@@ -101,16 +139,57 @@ func runTIntFloat(c *load.Ctx, r *report.RuleResult) {
 			exp := strings.ContainsAny(string(txt), "eE")
 			for _, o := range outs {
 				paths++
+				if dispatcher && o.Panicked && o.Undecided == "" {
+					// "the kind cannot be guessed": admissible when the exact parser was asked and refused
+					if cm := o.ChoiceMap(); cm["parses"] == "no" {
+						continue
+					}
+					if dot && !exp {
+						continue // a point form that the float test itself refuses (".", "7..")
+					}
+					problem = fmt.Sprintf("%q is refused without the exact parser having refused it: %s", txt, o.Exit())
+					break
+				}
 				if o.Undecided != "" || o.Panicked {
 					problem = fmt.Sprintf("not interpretable on %q: %s", txt, o.Exit())
 					break
+				}
+				val := o.ChoiceMap()
+				if dispatcher {
+					k, ok := o.Ret.(int64)
+					if !ok {
+						problem = fmt.Sprintf("undecided answer on %q: %s", txt, pe.Show(o.Ret))
+						break
+					}
+					parses, asked := val["parses"]
+					frac := val["fraction"]
+					isNum := k == tInt || k == tFloat
+					switch {
+					case dot && !exp:
+						if k != tFloat && !(asked && parses == "no") {
+							problem = fmt.Sprintf("%q (a point and no exponent) is not classified as a float", txt)
+						}
+					case isNum && !asked:
+						problem = fmt.Sprintf("%q is classified as a number kind without the exact number being built: integer or float is a property of the value (7e-1 is a float, 70e-1 an integer)", txt)
+					case isNum && parses != "yes":
+						problem = fmt.Sprintf("%q does not parse and is classified as a number", txt)
+					case isNum && frac == "":
+						problem = fmt.Sprintf("on %q the kind does not depend on whether a fraction is left after normalisation", txt)
+					case isNum && (k == tFloat) != (frac == "some"):
+						problem = fmt.Sprintf("%q with fraction=%s is classified wrongly", txt, frac)
+					case !isNum && asked && parses == "yes":
+						problem = fmt.Sprintf("%q parses as a number and is classified as something else", txt)
+					}
+					if problem != "" {
+						break
+					}
+					continue
 				}
 				got, ok := o.Ret.(bool)
 				if !ok {
 					problem = fmt.Sprintf("undecided answer on %q: %s", txt, pe.Show(o.Ret))
 					break
 				}
-				val := o.ChoiceMap()
 				parses, asked := val["parses"]
 				frac := val["fraction"]
 				pointForm := dot && !exp
@@ -142,7 +221,7 @@ func runTIntFloat(c *load.Ctx, r *report.RuleResult) {
 		if problem != "" {
 			r.Bad(key, c.Pos(fn.Pos()), problem)
 		} else {
-			r.OK(key, c.Pos(fn.Pos()), fmt.Sprintf("%d texts, %d paths", len(texts), paths))
+			r.OK(key, c.Pos(fn.Pos()), fmt.Sprintf("%d texts, %d paths", len(mine), paths))
 		}
 	}
 }
